@@ -33,3 +33,4 @@ def run(ck):
     fresh.no_hidden_state(ck, "C20.R8")                  # results depend on the documented state only (no caches / memos)
     funcs.routes_converge(ck, "C15.R1")
     funcs.functions_return_results(ck, "C20.R9")
+    fresh.reset_only_by_user(ck, "C04.R7")
